@@ -8,30 +8,30 @@ EXTENDS ContractIntro, Json, IOUtils
 
 Rec == ndJsonDeserialize(IOEnv.TRACE)
 
-VARIABLES l, nbad, nself, cur, rows, items, decl, failed, cres, flags
-vars == <<l, nbad, nself, cur, rows, items, decl, failed, cres, flags>>
+VARIABLES l, nbad, nself, cur, rows, items, decl, failed, cres, flags, codes
+vars == <<l, nbad, nself, cur, rows, items, decl, failed, cres, flags, codes>>
 
 NoFlags == [chrono |-> FALSE, uuid |-> FALSE, serde_json |-> FALSE, regress |-> FALSE]
 Init == /\ l = 1 /\ nbad = 0 /\ nself = 0 /\ cur = << >> /\ rows = << >> /\ items = << >>
-        /\ decl = << >> /\ failed = << >> /\ cres = "none" /\ flags = [m |-> NoFlags, u |-> NoFlags]
+        /\ decl = << >> /\ failed = << >> /\ cres = "none" /\ flags = [m |-> NoFlags, u |-> NoFlags] /\ codes = << >>
 IsEvent(k) == l <= Len(Rec) /\ Rec[l].ev = k /\ l' = l + 1
 
 CaseEv == /\ IsEvent("case") /\ cur' = Rec[l] /\ rows' = << >> /\ items' = << >> /\ decl' = << >>
-          /\ failed' = << >> /\ cres' = "none" /\ flags' = [m |-> NoFlags, u |-> NoFlags]
+          /\ failed' = << >> /\ cres' = "none" /\ flags' = [m |-> NoFlags, u |-> NoFlags] /\ codes' = << >>
           /\ UNCHANGED <<nbad, nself>>
 Render == /\ IsEvent("render") /\ items' = Rec[l].items
           /\ flags' = IF Rec[l].res = "ok" THEN [m |-> Rec[l].mentions, u |-> Rec[l].uses] ELSE flags
-          /\ UNCHANGED <<nbad, nself, cur, rows, decl, failed, cres>>
+          /\ UNCHANGED <<nbad, nself, cur, rows, decl, failed, cres, codes>>
 Intro == /\ IsEvent("intro") /\ rows' = Rec[l].types
-         /\ UNCHANGED <<nbad, nself, cur, items, decl, failed, cres, flags>>
+         /\ UNCHANGED <<nbad, nself, cur, items, decl, failed, cres, flags, codes>>
 Decl == /\ IsEvent("bounds_decl") /\ decl' = Rec[l].rows
-        /\ UNCHANGED <<nbad, nself, cur, rows, items, failed, cres, flags>>
-Compile == /\ IsEvent("compile") /\ cres' = Rec[l].res
+        /\ UNCHANGED <<nbad, nself, cur, rows, items, failed, cres, flags, codes>>
+Compile == /\ IsEvent("compile") /\ cres' = Rec[l].res /\ codes' = Rec[l].codes
            /\ UNCHANGED <<nbad, nself, cur, rows, items, decl, failed, flags>>
 Bounds == /\ IsEvent("bounds") /\ failed' = Rec[l].failed
-          /\ UNCHANGED <<nbad, nself, cur, rows, items, decl, cres, flags>>
+          /\ UNCHANGED <<nbad, nself, cur, rows, items, decl, cres, flags, codes>>
 Skip == /\ (IsEvent("ingest") \/ IsEvent("probe_na") \/ IsEvent("deser") \/ IsEvent("probe_panic"))
-        /\ UNCHANGED <<nbad, nself, cur, rows, items, decl, failed, cres, flags>>
+        /\ UNCHANGED <<nbad, nself, cur, rows, items, decl, failed, cres, flags, codes>>
 
 TypeMod == IF "typeMod" \in DOMAIN cur.settings THEN cur.settings.typeMod ELSE ""
 
@@ -56,7 +56,15 @@ Known17(d, name) ==
 Known19(d, name) == {}
 
 End == /\ IsEvent("endcase")
-       /\ IF cres # "ok" THEN nbad' = nbad
+       /\ IF cres # "ok" THEN
+             (* C19: "these traits never appear on a type for which they cannot be derived": the module
+                fails with a derive error (E0204: Copy on a type with a non-Copy member) *)
+             IF cres = "err" /\ \E i \in DOMAIN codes : codes[i] = "E0204"
+             THEN /\ nbad' = nbad + 1
+                  /\ PrintT(<<"BAD", ToJson([l |-> l, case |-> Rec[l].case, prop |-> "C19", diag |-> "C19/UnderivableTraitDerived",
+                            fam |-> cur.fam, id |-> cur.id, mode |-> cur.mode, sidx |-> cur.sidx, ty |-> "", known |-> {},
+                            codes |-> codes])>>)
+             ELSE nbad' = nbad
           ELSE LET b17 == C17_Bad(rows, items, decl, failed, TypeMod)
                    b19 == C19_Bad(items, decl, failed)
                    fd == C17_FlagDiag(flags.m, flags.u)
@@ -76,7 +84,7 @@ End == /\ IsEvent("endcase")
                             fam |-> cur.fam, id |-> cur.id, mode |-> cur.mode, sidx |-> cur.sidx,
                             ty |-> "", known |-> Known17(fd, ""), mentions |-> flags.m, uses |-> flags.u])>>))
                   /\ nbad' = nbad + Cardinality(b17) + Cardinality(b19) + (IF fd # "ok" THEN 1 ELSE 0)
-       /\ UNCHANGED <<nself, cur, rows, items, decl, failed, cres, flags>>
+       /\ UNCHANGED <<nself, cur, rows, items, decl, failed, cres, flags, codes>>
 
 Next == CaseEv \/ Render \/ Intro \/ Decl \/ Compile \/ Bounds \/ Skip \/ End
 Spec == Init /\ [][Next]_vars
